@@ -365,6 +365,9 @@ func runSeqhash(w *mon.W, c05 bool) {
 				if pos < 0 {
 					pos = 0
 				}
+				if pos >= n2 {
+					pos = n2 - 1
+				}
 				b[pos] = pair[1]
 				s = string(b)
 				w.Add("interrupted_homopolymer_rings", 1)
